@@ -1036,8 +1036,8 @@ func checkC16(c *Ctx) {
 	perX := (nTexts + workers*2 - 1) / (workers * 2)
 	split("types", nTypes, perT)
 	split("texts", nTexts, perX)
-	nConc := c.scale(12, 200)
-	split("concurrent", nConc, nConc)
+	nConc := c.scale(48, 600)
+	split("concurrent", nConc, (nConc+3)/4)
 	type pendingFinding struct {
 		f     Finding
 		extra int
